@@ -1726,8 +1726,19 @@ def np_diff(ctx, a):
 
 @lib('numpy.sort', 'abstract')
 def np_sort(ctx, a):
+    """Abstract sort of a 1-D array: the result is non-decreasing, and it equals the input element by element
+    when (and, by the first fact, only when) the input is already non-decreasing."""
     a = arr(ctx, a)
     out = A.fresh_array(ctx, 'sorted', a.shape, a.dtype)
+    if a.ndim == 1:
+        snap = a.snapshot()
+        n = a.shape[0]
+        i, j = z3.Int(ctx._name('sq')), z3.Int(ctx._name('sq'))
+        rng1 = z3.And(i >= 0, i + 1 < S.z(n))
+        ctx.assume(z3.ForAll([i], z3.Implies(rng1, S.z(S.le(out.at((i,)), out.at((i + 1,)))))), 'lib[abstract]:np.sort result is non-decreasing', axiom=True)
+        nondecr = z3.ForAll([i], z3.Implies(rng1, S.z(S.le(snap.at((i,)), snap.at((i + 1,))))))
+        same = z3.ForAll([j], z3.Implies(z3.And(j >= 0, j < S.z(n)), S.z(S.eq(out.at((j,)), snap.at((j,))))))
+        ctx.assume(z3.Implies(nondecr, same), 'lib[abstract]:np.sort leaves a non-decreasing array as it is', axiom=True)
     return out
 
 
